@@ -45,7 +45,9 @@ def load_unit_ops(u):
     ops = []
     for f in overlay_files(u):
         if os.path.exists(f):
-            ops += load_ops(f)
+            for o in load_ops(f):
+                o['_src'] = os.path.basename(f)[:-5]
+                ops.append(o)
     flt = getattr(u, 'OVERLAY_FILTER', None)      # a unit may use only part of a shared overlay
     if flt:
         ops = [o for o in ops if flt(o)]
